@@ -79,6 +79,16 @@ theorem reader_getitem_eq_concat {β : Type} (src : Source (List β)) (h : SrcOK
       getItemB r it c = .ok (rows.map (selCols c)) :=
   Lemmas.getItemB_eq src h r hr it hd c hoff
 
+/-- What an index-list channel selector selects (the column semantics `selCols` gives the theorems above):
+for entries within `[-w, w)` of a row of width `w`, exactly one cell per entry, in the order written, negative
+entries counting from the end — NumPy's `row[l]`.  (Outside the range NumPy and the real reader raise
+IndexError; the totalised `selCols` would drop the entry, which is why the hypothesis is there.) -/
+theorem selCols_idx_eq {β : Type} (l : List Int) (row : List β)
+    (hl : ∀ i ∈ l, -(row.length : Int) ≤ i ∧ i < row.length) (d : β) :
+    selCols (.idx l) row =
+      l.map fun i => (row[(if i < 0 then i + (row.length : Int) else i).toNat]?).getD d :=
+  Lemmas.selCols_idx l row hl d
+
 /-- Derived readers: `reader[:, c1][:, c2]…[item, c]` — successive deferred channel selections followed by
 an index with (or without) a further selector — returns NumPy's rows of the concatenation with the selections
 applied IN THE ORDER WRITTEN (`A[item][:, c1][:, c2]…[:, c]`, which is `A[:, c1][:, c2]…[item][:, c]`: row
@@ -135,6 +145,7 @@ example : SrcOK exCbin := by
   exact ⟨rfl, by decide +kernel⟩
 example : (build exCbin).map (fun r => getItemB r (.list [0, 2]) .all) = some .refused := by decide +kernel
 example : (build exCbin).map (fun r => getItemB r (.int (-1)) .all) = some (.ok [[5, 6]]) := by decide +kernel
+example : selCols (.idx [-1, 0, 2]) [10, 11, 12] = [12, 10, 12] := by decide
 /-- two successive channel selections do not commute: `[:, [1, 0]]` then `[:, [0]]` keeps channel 1 -/
 example : (build exFlat).map (fun r => getItemOps r (.int 0) [.idx [1, 0], .idx [0]]) = some (.ok [[2]]) ∧
     (build exFlat).map (fun r => getItemOps r (.int 0) [.idx [0], .idx [1, 0]]) = some (.ok [[1]]) := by
